@@ -33,6 +33,12 @@ CHECKS.update({
                 note="Declined: 'a following calculate equals a fresh evaluation' numerically. Trusted: pool.map re-raises a worker exception; closing/errstate do not suppress.", ref="4 C20"),
 })
 
+CHECKS.update({
+    "C09": dict(cat="proof", technique="abstract interpretation over Cython's typed tree: linear-template loop invariants (Houdini) with Fourier-Motzkin entailment; bounded exact-path counterexamples",
+                text="For every typed-memoryview index in a kernel compiled with boundscheck=False (35 sites, 70+ obligations in the three binary kernels) the bounds 0 <= index <= len-1 are proved from loop invariants inferred over the C int locals and symbolic buffer lengths. An obligation that cannot be discharged is reported as a violation only with a concrete integer counterexample (lengths, counters, branch trace) from an exact walk of at most two loop iterations; otherwise undecided.",
+                note="Trusted: Cython 3.3.0 front-end (parser + type analysis, the same that compiles the module), own FM entailment, numpy.empty(n) has length n. Assumes lengths < 2^30 (no C int overflow) and that the .so is built from the analysed .pyx. set_union_merge_many has content-dependent indices and is listed as not analysed.", ref="4 C09"),
+})
+
 NA_REASON = "check not built yet (build in progress; see DESIGN.md section 8)"
 
 
